@@ -951,8 +951,8 @@ func (o *Node) setNotFound(path Path, n *Node) error {
 		buf := rt.BytesFrom(rt.SubPtr(o.v, uintptr(4)), 4, 4)
 		size := int(thrift.BinaryEncoding{}.DecodeInt32(buf))
 		thrift.BinaryEncoding{}.EncodeInt32(buf, int32(size+1))
-		// add key bytes
-		key := path.ToRaw(n.t)
+		// add key bytes (integer keys are encoded with the map's key type, which precedes the size)
+		key := path.ToRaw(*(*thrift.Type)(rt.SubPtr(o.v, uintptr(6))))
 		src := n.raw()
 		buf = make([]byte, 0, len(key)+len(src))
 		buf = append(buf, key...)
